@@ -232,6 +232,27 @@ def access_consistent(g, a):
         if flat in a and not a.isdiag:
             return ("contains", f"`{flat} in a` is True although a[{flat}] does not exist (trans={a.trans})")
         break
+    # reverse=True: the same array with the sectors of every leg placed in descending order of charges
+    if len(keys) > 0:     # (tensors without blocks: see the tag nonsym-empty below)
+        roffs = []
+        for l in legs:
+            o, d = 0, {}
+            for t, D in zip(reversed(l.t), reversed(l.D)):
+                d[t] = (o, o + D); o += D
+            roffs.append(d)
+        rref = np.zeros(dense.shape, dtype=dense.dtype)
+        for key in keys:
+            blk = np.asarray(a[tuple(x for c in key for x in c)])
+            rref[tuple(slice(*roffs[i][tuple(c)]) for i, c in enumerate(key))] = np.diag(blk) if a.isdiag else blk
+        try:
+            rdense = a.to_numpy(native=True, reverse=True)
+            rns = a.to_nonsymmetric(native=True, reverse=True).to_numpy()
+        except Exception as e:  # noqa: BLE001
+            return ("reverse", f"to_numpy/to_nonsymmetric(reverse=True) raised {type(e).__name__}: {e}")
+        if rdense.shape != rref.shape or not np.array_equal(rdense, rref):
+            return ("reverse", "to_numpy(reverse=True) differs from the array re-assembled from a[key] with the sectors of get_legs in descending order")
+        if rns.shape != rref.shape or not np.array_equal(rns, rref):
+            return ("reverse", "to_nonsymmetric(reverse=True) differs from the array re-assembled from a[key] with the sectors of get_legs in descending order")
     # to_nonsymmetric: same array, no symmetry
     tag = "nonsym" if len(keys) > 0 else "nonsym-empty"
     try:
